@@ -186,6 +186,8 @@ def run(ctx):
                 break
             env.bind(ir)
             (mod,) = ir.modules
+            # the caller takes its references to the tables FIRST and keeps using them after the structural edits below
+            handles = {k: (ir.aux_data if k.startswith("ir") else mod.aux_data)[k] for k in tables}
             # structural edits that do not touch any table: detaching / re-attaching the module (also through another IR) must not
             # count as reading its tables
             q = rng.random()
@@ -205,7 +207,9 @@ def run(ctx):
             hist = {}
             for k in tables:
                 st = state[k]
-                ad = (ir.aux_data if k.startswith("ir") else mod.aux_data)[k]
+                ad = handles[k]
+                if (ir.aux_data if k.startswith("ir") else mod.aux_data)[k] is not ad:
+                    ctx.count("table_object_replaced_by_a_structural_edit")      # judged by its consequence: the edits below go through `ad`
                 ops = []
                 for _ in range(rng.choice([0, 0, 1, 1, 2, 3])):
                     ops.append(rng.choice(["read", "read", "mutate", "assign", "retype", "retype_back"]))
